@@ -276,7 +276,7 @@ def explore(ctx, rs, om, buckets, sc, dist, cases, samples, max_cuts, two_cases)
             dist["cuts_" + kind] += 1
             if j - a + 1 < b - a and j > a:
                 nontrivial += 1          # strictly inside the level
-            if state is not None and R2["restored"] is not None and kind in ("ok", "tied"):
+            if state is not None and R2["restored"] is not None and not R2["error"]:
                 T = state[0]
                 cases.append({"om": om, "T": T, "j": j - a, "state": state, "rest": R2["stream"][:R2["restored"]],
                               "replay": replay})
